@@ -12,6 +12,11 @@ from .cxxsym import tinfo
 from .frontend import AnalysisBroken
 
 
+class LoopBudget(AnalysisBroken):
+    """A loop whose condition was decided (uniform) in every iteration ran longer than the interpreter's bound: on the analysed class
+    it needs more iterations than any terminating use in this code base -- clients may read this as non-termination."""
+
+
 class NeedSplit(Exception):
     def __init__(self, at=None, why=''):
         Exception.__init__(self, why)
@@ -384,7 +389,7 @@ class Interp:
                     return
                 except _Continue:
                     pass
-            raise AnalysisBroken('loop at %s exceeds %d abstract iterations' % (pos(n), self.max_iter))
+            raise LoopBudget('loop at %s exceeds %d abstract iterations' % (pos(n), self.max_iter))
         elif k == 'DoStmt':
             for _ in range(self.max_iter):
                 try:
@@ -395,7 +400,7 @@ class Interp:
                     pass
                 if not self.truth(self.expr(ch[1], env), ch[1]):
                     return
-            raise AnalysisBroken('loop at %s exceeds %d abstract iterations' % (pos(n), self.max_iter))
+            raise LoopBudget('loop at %s exceeds %d abstract iterations' % (pos(n), self.max_iter))
         elif k == 'ForStmt':
             init, _v, cond, inc, body = (n.get('inner', []) + [{}] * 5)[:5]
             if init and 'kind' in init:
@@ -411,7 +416,7 @@ class Interp:
                     pass
                 if inc and 'kind' in inc:
                     self.expr(inc, env)
-            raise AnalysisBroken('loop at %s exceeds %d abstract iterations' % (pos(n), self.max_iter))
+            raise LoopBudget('loop at %s exceeds %d abstract iterations' % (pos(n), self.max_iter))
         elif k == 'CXXForRangeStmt':
             inner = n.get('inner', [])
             body = inner[-1]
@@ -500,6 +505,8 @@ class Interp:
             o = self.expr(ch[0], env)
             if isinstance(o, Obj):
                 return ('field', o, n['name'], n)
+            if isinstance(o, tuple) and o and o[0] == 'pair' and n.get('name') in ('first', 'second') and len(o) == 3:
+                return ('val', o[1] if n['name'] == 'first' else o[2])
             raise AnalysisBroken('member access on %r at %s' % (o, pos(n)))
         if k in ('ImplicitCastExpr', 'CXXStaticCastExpr') and n.get('castKind') in ('NoOp', 'DerivedToBase', 'UncheckedDerivedToBase'):
             return self.lval(children(n)[0], env)
@@ -945,6 +952,20 @@ class Interp:
             if ti:
                 lo_, hi_ = rng(ti[0], ti[1])
                 return const(ti[0], ti[1], hi_ if name == 'max' else lo_)
+        if kind == 'function' and name in ('min', 'max') and len(args) == 2:
+            a, b = self.expr(args[0], env), self.expr(args[1], env)
+            if isinstance(a, IV) and isinstance(b, IV):
+                ti = tinfo(n, self.idx)
+                if ti:
+                    a, b = self.convert(a, ti[0], ti[1], n), self.convert(b, ti[0], ti[1], n)
+                if a.hi <= b.lo:
+                    return a if name == 'min' else b
+                if b.hi <= a.lo:
+                    return b if name == 'min' else a
+                src = a if a.src == 'input' else b
+                other = b if src is a else a
+                raise NeedSplit(('<=', other.lo) if (src.src == 'input' and other.concrete()) else None,
+                                'std::%s of overlapping classes %r, %r at %s' % (name, a, b, pos(n)))
         if kind == 'function' and name in ('move', 'forward') and len(args) == 1:
             try:
                 lv = self.lval(args[0], env)
